@@ -261,8 +261,9 @@ class Interp:
             return ("adt", "?", 0, tuple(fields))
         if k in ("ref", "obj"):
             return cur
-        if k == "addr":
-            return val
+        if k in ("addr", "sym", "app", "i", "f"):
+            # scalar stored in a transparent wrapper (Cell<usize> modelled as the usize itself)
+            return self._write(val, path[1:], val, None) if False else val
         raise InterpError("cannot write through %r" % (cur,))
 
     def frame_alloc(self, fr, local):
@@ -314,6 +315,10 @@ class Interp:
                         except InterpError:
                             cur = None
                         if cur is not None and cur[0] == "adt" and cur[1] != ty["def"] and cur[1] != "?":
+                            tid = self._static_step(tid, pr)
+                            continue
+                        if cur is not None and cur[0] in ("sym", "app", "i", "f", "addr"):
+                            # scalar modelled without its transparent wrapper (Cell<usize> as the usize itself)
                             tid = self._static_step(tid, pr)
                             continue
             tid = self._static_step(tid, pr)
